@@ -349,6 +349,21 @@ func c19Programs(tier string, rep *evid.Reporter) c19L2 {
 					rep.Violation(id+"/order", fmt.Sprintf("segments not sorted at %d:%d", dm.GeneratedLine, dm.GeneratedColumn), nil)
 				}
 				prevL, prevC = dm.GeneratedLine, dm.GeneratedColumn
+				if strings.HasSuffix(dm.OriginalFile, ".go") && dm.GeneratedLine >= 1 && dm.GeneratedLine <= len(lines) {
+					// a recorded position is where some piece of code STARTS: never in the middle of an identifier or number
+					u := utf16.Encode([]rune(lines[dm.GeneratedLine-1]))
+					c := dm.GeneratedColumn
+					if c > 0 && c < len(u) && isWordUnit(u[c-1]) && isWordUnit(u[c]) {
+						lo, hi := c-12, c+12
+						if lo < 0 {
+							lo = 0
+						}
+						if hi > len(u) {
+							hi = len(u)
+						}
+						rep.Violation(id+"/midtoken", fmt.Sprintf("segment %d:%d (%s:%d) points into the middle of a token: %q|%q", dm.GeneratedLine, c, dm.OriginalFile, dm.OriginalLine, string(utf16.Decode(u[lo:c])), string(utf16.Decode(u[c:hi]))), nil)
+					}
+				}
 				if dm.OriginalFile != "" {
 					n := resolve(dm.OriginalFile)
 					if n < 0 {
@@ -367,6 +382,10 @@ func c19Programs(tier string, rep *evid.Reporter) c19L2 {
 	res.samples = append(res.samples, fmt.Sprintf("%d whole-program builds, %d segments checked, %d run-time frames resolved", res.builds, res.segments, res.frames))
 	res.harness += len(env.Harness)
 	return res
+}
+
+func isWordUnit(u uint16) bool {
+	return u == '_' || u == '$' || (u >= '0' && u <= '9') || (u >= 'a' && u <= 'z') || (u >= 'A' && u <= 'Z') || u >= 0x80
 }
 
 var reFrame = regexp.MustCompile(`\(?([^\s()]+):(\d+):(\d+)\)?$`)
